@@ -19,6 +19,9 @@ def scenarios(quick, seed):
                     "ops": (40 + 10 * (j % 3)) if pol == "free" else 8 + j % 6, "keys": 2 + j % 7,
                     "max": [0, 3, 1, 2, 6, 4][j % 6], "churn": ([0, 400, 900][j % 3] if pol == "free" else 0), "expiry": (j // 2) % 2,
                     "initcap": [0, 1, 64, 1000][(j // 3) % 4], "policy": pol, "seed": seed * 100000 + j, "loader": (j // 3) % 2})
+        if j % 8 == 5:
+            # per-value lifetimes (even values get no deadline) over keys that start with an expired, not yet removed entry
+            out[-1].update(expiry=2)
         if pol != "free" and out[-1]["loader"] and (j // 6) % 2:
             # few keys, installations stalled: joined loads and the reads that follow them
             out[-1].update(policy=pol + "+stall", keys=1 + j % 2, max=0)
